@@ -1,7 +1,9 @@
 """translate_lr — tie T0 for the LR module: regenerate coq/gen/GenLR.v from /repo on every run.
 
 (a) THE GRAMMAR AS DATA, read by this module's own reader from /repo's source text:
-      parser.py    class Parser: every `p_*` method (except p_error) in source order (ply orders
+      parser.py    Parser.parse_string: whether the text's last line is terminated before parsing
+                   (`if not s.endswith("\\n"): s += "\\n"`) -> GenLR.appends_final_newline;
+                   class Parser: every `p_*` method (except p_error) in source order (ply orders
                    rule functions by first line), its docstring — a literal docstring or
                    `@override_docstring(r_x)` with r_x a string constant of grammars.py —,
                    `precedence`, `tokens` (= Lexer.tokens), the arguments of `yacc.yacc(...)`
@@ -233,13 +235,29 @@ def read_grammar() -> Dict[str, Any]:
                 pr = prec.get(s, ("right", 0))
                 break
         p["prec"] = list(pr)
+    # parse_string: how the text reaches the driver.  Accepted shapes (fail closed otherwise):
+    #     with ..: with ..: [if not s.endswith("\n"): s += "\n"]  return self.parser.parse(s)
+    ps = find_func(ptree, "parse_string", "Parser")
+    body = [b for b in ps.body if not (isinstance(b, ast.Expr) and isinstance(b.value, ast.Constant))]
+    while len(body) == 1 and isinstance(body[0], ast.With):
+        body = body[0].body
+    appends_newline = False
+    if len(body) == 2 and isinstance(body[0], ast.If) and not body[0].orelse \
+            and ast.unparse(body[0].test) in ("not s.endswith('\\n')",) \
+            and [ast.unparse(x) for x in body[0].body] == ["s += '\\n'"]:
+        appends_newline = True
+        body = body[1:]
+    if not (len(body) == 1 and isinstance(body[0], ast.Return)
+            and ast.unparse(body[0].value) == "self.parser.parse(s)"):
+        raise Broken("translate_lr: Parser.parse_string is not `[terminate the last line] return self.parser.parse(s)`",
+                     ast.unparse(ps)[:600])
     skel = {
         "parser.py:Parser.__init__": skeleton_digest(init),
         "parser.py:Parser.parse_string": skeleton_digest(find_func(ptree, "parse_string", "Parser")),
         "parser.py:Parser.p_error": skeleton_digest(find_func(ptree, "p_error", "Parser")),
     }
     return {"prods": prods, "nts": nts, "terms": terms, "prec": prec, "start": start, "skel": skel,
-            "tokens": tokens, "literals": literals}
+            "tokens": tokens, "literals": literals, "appends_newline": appends_newline}
 
 
 # --------------------------------------------------------------------------------------
@@ -427,6 +445,8 @@ def gen_lr() -> Tuple[str, Dict[str, str]]:
         f"Definition n_terms : nat := {len(terms)}.",
         f"Definition n_states : nat := {n}.",
         f"Definition start_symbol : nat := {nid[G['start']]}.",
+        "(* Parser.parse_string terminates the last line of the text with a newline before parsing *)",
+        f"Definition appends_final_newline : bool := {'true' if G['appends_newline'] else 'false'}.",
         "",
         "(* production number -> (lhs, rhs); 0 is S' -> start *)",
         "Definition grammar : list (nat * list symbol) := [",
